@@ -138,12 +138,12 @@ def sanitize_piece(s: str) -> str:
 
 
 def doc_case():
-    piece = st.one_of(hostile(), st.sampled_from(["<p>x</p>", "</script>", "<script>var a;</script>", "\n", "PLACEHOLDER", "<head>PLACEHOLDER</head>", ""]))
+    piece = st.one_of(hostile(), st.sampled_from(["<p>x</p>", "</script>", "<script>var a;</script>", "\n", "PLACEHOLDER", "<head>PLACEHOLDER</head>", "", "PLACEHOLDER PLACEHOLDER", "<meta data-foo=\"\">"]), st.sampled_from(["PLACEHOLDER", "<head>PLACEHOLDER</head><body>PLACEHOLDER</body>"]))
     return st.fixed_dictionaries(
         {
             "deps": st.lists(st.tuples(dep_strategy(), st.sampled_from([None, 0, 2, 4])).map(list), max_size=3),
             "layout": st.lists(st.one_of(st.tuples(st.just("t"), piece), st.tuples(st.just("d"), st.integers(0, 5))).map(list), max_size=8),
-            "pattern": st.one_of(st.just("PLACEHOLDER"), st.just("<meta data-foo=\"\">"), hostile().filter(lambda s: len(s) > 0)),
+            "pattern": st.one_of(st.just("PLACEHOLDER"), st.just("PLACEHOLDER"), st.just("<meta data-foo=\"\">"), hostile().filter(lambda s: len(s) > 0)),
             "explicit": st.integers(0, 2),
             "lib": st.sampled_from(["lib", None, "p/q"]),
             "iv": st.booleans(),
